@@ -73,9 +73,12 @@ def findDef : Stack → Option String → Path → Option (Scal × Stack × Opti
       | some (name, d) => some (d, b :: rest, match name with | [x] => some x | _ => none)
       | none => findDef rest none p
 
-/-- string content of a literal scalar (what `ScalarString()` returns) -/
+/-- string content of a scalar (what `ScalarString()` returns once it holds no live substitution); inside single
+    quotes `${…}` is ordinary text -/
 def contentOf (v : Scal) : String :=
-  String.join (v.parts.map fun x => match x with | .lit s => s | .sub _ => "")
+  String.join (v.parts.map fun x => match x with
+    | .lit s => s
+    | .sub p => if v.q = 2 then "${" ++ ".".intercalate p ++ "}" else "")
 
 /-- text contributed by one part of a mixed string -/
 def partText (r : Path → Except Err Scal) : Part → Except Err String
@@ -103,6 +106,20 @@ def substWith (r : Path → Except Err Scal) (host : Scal) : Except Err Scal :=
       match spliceAll r parts with
       | .ok t => .ok { q := 1, parts := [.lit t] }
       | .error e => .error e
+
+def mapE {α β} (f : α → β) : Except Err α → Except Err β
+  | .ok a => .ok (f a)
+  | .error e => .error e
+
+/-- the string `resolveSubstitutions` leaves in a node: `${p}` alone in unquoted text takes the definition's value
+    node (`node.Primary().Value = resolvedField.Primary().Value`); otherwise every substitution box gets the resolved
+    `ScalarString()` and the boxes are coalesced -/
+def evalNode (r : Path → Except Err Scal) (host : Scal) : Except Err String :=
+  if host.q = 2 then .ok (contentOf host)
+  else if host.hasSub = false then .ok (contentOf host)
+  else match host.q, host.parts with
+    | 0, [.sub p] => mapE contentOf (r p)
+    | _, parts => spliceAll r parts
 
 /-- value of `${p}` seen from `stk`; fuel bounds the chain of definitions that refer to definitions -/
 def resolve : Nat → Stack → Option String → Path → Except Err Scal
